@@ -73,7 +73,12 @@ class LoopGen:
             return off(r.choice(RO_SCALARS), r.choice([0, 1]))
         if c < 0.97 and env["tmps"]:
             return var(r.choice(env["tmps"]))        # index scalar (values kept small by the stores)
-        return ("bin", "Mul", lit(2), var(LOOPVAR)) if r.random() < 0.5 else \
+        c2 = r.random()
+        if c2 < 0.25 and env["tmps"]:
+            return ("bin", "Add", var(LOOPVAR), var(r.choice(env["tmps"])))      # i + (loop-variant scalar)
+        if c2 < 0.4:
+            return ("bin", "Div", var(LOOPVAR), lit(2))                           # i / 2
+        return ("bin", "Mul", lit(2), var(LOOPVAR)) if c2 < 0.7 else \
             ("bin", "Add", var(LOOPVAR), var(r.choice(RO_SCALARS)))
 
     def ref(self, env, role, arrays=None):
@@ -195,7 +200,8 @@ SHAPES = [
                          ("assign", "d", [var("i"), var("j")], ("bin", "Mul", var("t"), lit(2)))])])),
     ("variable-trip", _do([("assign", "t", [], ("bin", "Add", A_I, var("n"))), ("assign", "c", [off("i", 1)], var("t"))], hi=var("n"))),
     ("const-subscript-write", _do([("assign", "b", [lit(3)], A_I)])),
-    ("index-scalar", _do([("assign", "t", [], A_I), ("assign", "b", [("bin", "Add", var("i"), var("t"))], lit(1))])),
+    ("index-scalar", _do([("assign", "t", [], A_I), ("assign", "b", [("bin", "Add", var("i"), var("t"))], var("i"))])),
+    ("div-subscript", _do([("assign", "b", [("bin", "Div", var("i"), lit(2))], var("i"))])),
 ]
 
 
@@ -225,6 +231,7 @@ class Impl:
         from psyclone.transformations import OMPParallelLoopTrans
         from psyclone.psyir.transformations import OMPLoopTrans
         from psyclone.errors import GenerationError
+        from psyclone.psyir.backend.visitor import VisitorError
 
         def trans():
             return OMPParallelLoopTrans() if variant == 0 else OMPLoopTrans(omp_directive="paralleldo")
@@ -257,9 +264,10 @@ class Impl:
                 out["clauses"] = (sorted(x.strip().lower() for x in mp.group(1).split(",")) if mp else [],
                                   sorted(x.strip().lower() for x in mfp.group(1).split(",")) if mfp else [])
                 out["directive_line"] = line.strip()
-            except GenerationError as e:
+            except (GenerationError, VisitorError) as e:
+                # accepted, but no OpenMP program can be written (symbols needing synchronisation)
                 out["clauses"] = None
-                out["why"] = "GenerationError: " + str(e)[:100]
+                out["why"] = "accepted but code generation fails: " + str(e).replace("\n", " ")[-160:]
         # forced application on a fresh tree: infer_sharing_attributes on loops validate refuses
         out["forced"] = None
         if out["accepted"]:
@@ -561,7 +569,9 @@ def array_shape(loop, a, privatised):
         mf.expr_names(q, names)
     if names & set(privatised):
         return "subscript-uses-privatised-scalar"
-    if any(q[0] == "idx" or (q[0] == "bin" and q[1] in ("Div", "Mul", "Pow")) or q[0] == "intr" for q in subs):
+    if any(q[0] == "bin" and q[1] == "Div" for q in subs):
+        return "integer-division-subscript"
+    if any(q[0] == "idx" or (q[0] == "bin" and q[1] in ("Mul", "Pow")) or q[0] == "intr" for q in subs):
         return "nonaffine-subscript"
     return "affine-subscripts"
 
@@ -643,8 +653,8 @@ Definition run_job (j : job) : bool :=
 def run(ctx):
     ctx.cov["rule"] = (
         "loops `do i` over integer scalars/arrays: body of 1-4 statements from {array assignment (subscripts i, i+-c, "
-        "const, n, inner var, index scalar, 2*i, i+n; 1-D and 2-D), scalar assignment, IF/ELSE, inner DO (literal or "
-        "variable trip count)}; bounds literal / n, steps 1, 2, -1; 16 targeted shapes first; each loop goes through "
+        "const, n, inner var, index scalar, 2*i, i+n, i+tmp, i/2; 1-D and 2-D), scalar assignment, IF/ELSE, inner DO (literal or "
+        "variable trip count)}; bounds literal / n, steps 1, 2, -1; 17 targeted shapes first; each loop goes through "
         "OMPParallelLoopTrans or OMPLoopTrans(paralleldo) without force. non-trivial = accepted and code generated; "
         "distinct = canonical loop text.  Search: stores x realisable schedules (all interleavings for <=5 iterations).")
     ctx.cov["trusted_base"] = core.BASE_TRUST + [
@@ -667,7 +677,7 @@ def run(ctx):
     rng = ctx.rng("gen")
     gen = LoopGen(rng)
     loops = [(tag, lp) for tag, lp in SHAPES]
-    for _ in range(ctx.pick(125, 1800)):
+    for _ in range(ctx.pick(150, 1100)):
         loops.append(("gen", gen.loop()))
     results = []
     for idx, (tag, lp) in enumerate(loops):
@@ -676,7 +686,7 @@ def run(ctx):
         results.append(res)
     # ---- region form (infer only)
     regions = []
-    for _ in range(ctx.pick(30, 300)):
+    for _ in range(ctx.pick(30, 200)):
         got = impl.run_region(gen.pre(), gen.loop())
         if got:
             regions.append(got)
@@ -758,7 +768,7 @@ def run(ctx):
                 continue
             s0 = mf.Store(vals, BNDS)
             _, _, n = iter_count(loop, s0)
-            for sched in schedules(n, srng, ctx.pick(40, 150)):
+            for sched in schedules(n, srng, ctx.pick(40, 90)):
                 for junk in (7919, -5003):
                     n_exec += 1
                     got = omp_run(loop, vals, private, fprivate, sched, junk)
@@ -786,7 +796,8 @@ def run(ctx):
                           "iteration by iteration in `schedule` order with the clause semantics (props/C09/check.py omp_run) "
                           "or compile the written program with gfortran -fopenmp" % res["variant"]}))
     for r in results:
-        ctx.hist("verdict", "accepted" if r["accepted"] else "rejected: " + str(r.get("why")))
+        ctx.hist("verdict", ("accepted" if r.get("clauses") is not None else "accepted, no code generated")
+                 if r["accepted"] else "rejected: " + str(r.get("why")))
         ctx.count(r["source"], False) if not r["accepted"] else None
     ctx.cov["evaluations"] += n_exec
     ctx.notes["omp_executions"] = n_exec
@@ -891,11 +902,15 @@ def gfortran_runs(ctx, impl, accepted, stores):
     d = ctx.scratch / "gf"
     d.mkdir(exist_ok=True)
     jobs = []
-    for j, res in enumerate(accepted[:ctx.pick(12, 120)]):
+    skipped_oob = 0
+    for j, res in enumerate(accepted[:ctx.pick(12, 50)]):
         loop = res["seen"]
         vals = stores[j % len(stores)]
         ser = mf.interp([loop], vals, BNDS)
         if ser[0] != "ok":
+            continue
+        if any(ev[0] in ("R", "W") and any(not (LB <= q <= UB) for q in ev[1][1]) for ev in ser[2]):
+            skipped_oob += 1     # an index scalar leaves the declared bounds: undefined for the compiled program
             continue
         psy, routine, _ = impl.parse([loop])
         OMPParallelLoopTrans(omp_schedule="runtime").apply(routine.walk(Loop)[0])
@@ -950,9 +965,7 @@ def gfortran_runs(ctx, impl, accepted, stores):
                 inconclusive += 1
             continue
         for nt in range(1, 9):
-            for sk in ("static", "dynamic", "guided", "static,1"):
-                if sk == "static,1" and nt not in (2, 3):
-                    continue
+            for sk in ("static", "dynamic", "guided"):
                 env = dict(os.environ, OMP_NUM_THREADS=str(nt), OMP_SCHEDULE=sk)
                 rc, out = core.sh([str(exe)], timeout=120, env=env)
                 if rc == 124:        # timed out (machine load): inconclusive, never a failure
@@ -971,6 +984,6 @@ def gfortran_runs(ctx, impl, accepted, stores):
                 continue
             break
     ctx.log("gfortran -fopenmp: %d programs, %d runs, %d differ" % (len(jobs), nruns, len(bad)))
-    ctx.notes["gfortran_openmp"] = {"programs": len(jobs), "runs": nruns, "differ": len(bad), "inconclusive_timeouts": inconclusive,
-                                    "threads": "1..8", "schedules": "static, dynamic, guided (+static,1)"}
+    ctx.notes["gfortran_openmp"] = {"programs": len(jobs), "runs": nruns, "differ": len(bad), "inconclusive_timeouts": inconclusive, "skipped_out_of_bounds": skipped_oob,
+                                    "threads": "1..8", "schedules": "static, dynamic, guided"}
     return bad
